@@ -262,6 +262,8 @@ func makeRoot(kind, page string, r *rand.Rand, g *docGen) (*html.Node, string) {
 	return doc, "document"
 }
 
+var rxBlanks = regexp.MustCompile(`[ \t]+`)
+
 var rxRoleAttr = regexp.MustCompile(` role="[^"]*"`)
 
 var loopback *httptest.Server
@@ -431,7 +433,14 @@ func runCalls(c Case, e *env) []Event {
 				// the renamed marker itself (role survives attribute stripping) is not a difference
 				viewHTML = rxRoleAttr.ReplaceAllString(viewHTML, "")
 			}
-			obs["view"] = dig(res.Text + "\x00" + viewHTML)
+			viewText := res.Text
+			if variant != "" {
+				// runs of blanks are one blank to every reader of HTML and of the text view: the three pages of a
+				// triple differ in how many blanks surround the place of the marked subtree
+				viewHTML = rxBlanks.ReplaceAllString(viewHTML, " ")
+				viewText = rxBlanks.ReplaceAllString(viewText, " ")
+			}
+			obs["view"] = dig(viewText + "\x00" + viewHTML)
 			obs["txtwc"] = len(strings.Fields(res.Text))
 			obs["ntitle"] = len(res.Title)
 			obs["onlytxt"] = onlyText(res.Node)
